@@ -28,6 +28,21 @@
 //!  * stage E (lane tables): the vectorised filters process groups of four rows and a scalar tail, so tables
 //!    of 4 / 5 / 9 rows (thorough: 4/5/8/9/13) whose numeric column holds b everywhere except a at one
 //!    position, for all a, b of the alphabet and all positions, x all atoms, scan vs columnar vs count.
+//!  * stage F (compound conditions after a history): tables of 3..=5 live rows produced by a HISTORY of inserts,
+//!    updates (by row and by value), deletes, re-inserts and updates inside an explicit transaction (committed and
+//!    rolled back): an older row updated INTO a value that newer rows already hold (and out of it again), both indexed
+//!    columns assigned at once, a row deleted and a new row inserted with the same values, multi-row updates, rows
+//!    swapping values; x 3 value palettes over the column pairs (i,s), (i,f) with Null / -0.0 and (f,s) with NaN; x hash
+//!    and/or B-tree indexes on the TWO columns (hash+hash, btree+btree, hash+btree, btree+hash, both+both), created before
+//!    the history, after the initial inserts or after the whole history (7 configurations for the first palette, 3 for
+//!    the others); then EVERY And/Or of two atoms (6 operators x
+//!    the two held values and one value the table does not hold, on either of the two indexed columns: 36 atoms, 2592
+//!    conditions), read through select / select_columnar / count / sum / min / max / select_with_limit /
+//!    select_iter / streaming.  The whole table is read back after the history (C04.update_delete).  The model of the
+//!    table is maintained by the harness (a row is touched by a step iff `Condition::evaluate` is true for it).
+//!    The cases go to the obligations of the older stages: C04.select.hash when both columns carry hash indexes only,
+//!    C04.select.btree for B-tree only, C04.select.both otherwise; C04.select.columnar / C04.count_agg / C04.limit /
+//!    C04.limit.stream by operation.  Case format: "history" (list of steps) instead of "rows", cfg.cols / cfg.index_at.
 //! Thorough adds depth-3 conditions and seeded random 5-row tables with two extra tiny floats
 //! (not exhaustive).
 //!
@@ -659,10 +674,12 @@ fn class_of(case: &J) -> (String, String) {
     });
     let mut_part = if case["mutation"].is_null() { String::new() } else { format!(" after {}", case["mutation"]) };
     let set_part = if case["set"].is_null() { String::new() } else { format!(" set {}", case["set"]) };
+    let hist_part = if case["hist"].is_null() { String::new() } else { format!(" after history {}", case["hist"]) };
+    let cols_part = if case["cfg"]["cols"].is_null() { String::new() } else { format!(" cols={} index_at={}", case["cfg"]["cols"], case["cfg"]["index_at"]) };
     (
-        format!("{}{set_part}{mut_part} | {shape} | null in filtered column: {nullcol}", case["op"].as_str().unwrap_or("?")),
+        format!("{}{set_part}{mut_part}{hist_part} | {shape} | null in filtered column: {nullcol}", case["op"].as_str().unwrap_or("?")),
         format!(
-            "idx={} first={} omit={}",
+            "idx={} first={} omit={}{cols_part}",
             case["cfg"]["idx"].as_str().unwrap_or("?"),
             case["cfg"]["index_first"],
             case["cfg"]["omit_null"]
@@ -869,6 +886,386 @@ fn do_mut(rep: &mut Rp, pool: &mut Pool, rows: &[Vals], cfg: Cfg, c: &Condition,
                 }
             }
         },
+    }
+}
+
+// ---------------------------------------------------------------- stage F: compound conditions after a history
+
+/// the rows a step applies to: the k-th inserted row of the history (by the id `insert` returned) or a condition
+#[derive(Clone, Debug)]
+enum Tgt {
+    Row(usize),
+    Cond(Condition),
+}
+
+#[derive(Clone, Debug)]
+enum Step {
+    Ins(Vals),
+    Upd(Tgt, Vec<(usize, Value)>),
+    Del(Tgt),
+    /// `tx_update` inside an explicit transaction which is then committed (true) or rolled back (false)
+    TxUpd(Tgt, Vec<(usize, Value)>, bool),
+}
+
+fn set_enc(a: &[(usize, Value)]) -> J {
+    let mut m = serde_json::Map::new();
+    for (k, v) in a {
+        m.insert(COLS[*k].to_string(), J::String(venc(v)));
+    }
+    J::Object(m)
+}
+
+fn set_dec(j: &J) -> Result<Vec<(usize, Value)>, String> {
+    let mut a = vec![];
+    for (k, v) in j.as_object().ok_or("set")? {
+        let col = COLS.iter().position(|c| c == k).ok_or("set col")?;
+        a.push((col, vdec(v.as_str().ok_or("set val")?)?));
+    }
+    Ok(a)
+}
+
+impl Tgt {
+    fn enc(&self) -> J {
+        match self {
+            Self::Row(k) => json!(["row", k]),
+            Self::Cond(c) => cenc(c),
+        }
+    }
+    fn dec(j: &J) -> Result<Self, String> {
+        if j[0].as_str() == Some("row") {
+            return Ok(Self::Row(j[1].as_u64().ok_or("row number")? as usize));
+        }
+        cdec(j).map(Self::Cond)
+    }
+}
+
+impl Step {
+    fn enc(&self) -> J {
+        match self {
+            Self::Ins(r) => json!(["ins", [venc(&r[0]), venc(&r[1]), venc(&r[2])]]),
+            Self::Upd(t, a) => json!(["upd", t.enc(), set_enc(a)]),
+            Self::Del(t) => json!(["del", t.enc()]),
+            Self::TxUpd(t, a, commit) => json!(["txupd", t.enc(), set_enc(a), if *commit { "commit" } else { "rollback" }]),
+        }
+    }
+    fn dec(j: &J) -> Result<Self, String> {
+        match j[0].as_str().ok_or("step tag")? {
+            "ins" => Ok(Self::Ins(rows_dec(&json!([j[1]]))?.remove(0))),
+            "upd" => Ok(Self::Upd(Tgt::dec(&j[1])?, set_dec(&j[2])?)),
+            "del" => Ok(Self::Del(Tgt::dec(&j[1])?)),
+            "txupd" => Ok(Self::TxUpd(Tgt::dec(&j[1])?, set_dec(&j[2])?, match j[3].as_str() {
+                Some("commit") => true,
+                Some("rollback") => false,
+                _ => return Err("txupd needs commit|rollback".into()),
+            })),
+            o => Err(format!("bad step {o}")),
+        }
+    }
+}
+
+fn hist_enc(h: &[Step]) -> J {
+    J::Array(h.iter().map(Step::enc).collect())
+}
+
+fn hist_dec(j: &J) -> Result<Vec<Step>, String> {
+    j.as_array().ok_or("history")?.iter().map(Step::dec).collect()
+}
+
+/// index kinds per column (0 none, 1 hash, 2 btree, 3 hash + btree) and the number of history steps executed before the
+/// indexes are created (0 = before the first insert, >= length of the history = after the whole history)
+#[derive(Clone, Copy, Debug)]
+struct HCfg {
+    kinds: [u8; 3],
+    at: usize,
+}
+
+impl HCfg {
+    fn idx(self) -> Idx {
+        let used: Vec<u8> = self.kinds.iter().copied().filter(|k| *k != 0).collect();
+        if used.is_empty() {
+            Idx::None
+        } else if used.iter().all(|k| *k == 1) {
+            Idx::Hash
+        } else if used.iter().all(|k| *k == 2) {
+            Idx::Btree
+        } else {
+            Idx::Both
+        }
+    }
+    /// the obligation key of the older stages (all indexed columns hash => .hash, all B-tree => .btree, otherwise .both)
+    fn cfg(self) -> Cfg {
+        Cfg::new(self.idx(), self.at == 0, false)
+    }
+    fn enc(self) -> J {
+        let mut j = self.cfg().enc();
+        let mut m = serde_json::Map::new();
+        for (k, c) in COLS.iter().enumerate() {
+            if self.kinds[k] != 0 {
+                m.insert((*c).to_string(), json!(["none", "hash", "btree", "both"][self.kinds[k] as usize]));
+            }
+        }
+        j["cols"] = J::Object(m);
+        j["index_at"] = json!(self.at);
+        j
+    }
+    fn dec(j: &J) -> Result<Self, String> {
+        let mut kinds = [0u8; 3];
+        for (k, v) in j["cols"].as_object().ok_or("cfg.cols")? {
+            let col = COLS.iter().position(|c| c == k).ok_or("cfg.cols column")?;
+            kinds[col] = ["none", "hash", "btree", "both"].iter().position(|n| Some(*n) == v.as_str()).ok_or("cfg.cols kind")? as u8;
+        }
+        Ok(Self { kinds, at: j["index_at"].as_u64().ok_or("cfg.index_at")? as usize })
+    }
+    fn create(self, e: &RelationalEngine, t: &str) -> Result<(), String> {
+        for (k, c) in COLS.iter().enumerate() {
+            if self.kinds[k] & 1 != 0 {
+                e.create_index(t, c).map_err(|x| format!("create_index({c}): {x:?}"))?;
+            }
+            if self.kinds[k] & 2 != 0 {
+                e.create_btree_index(t, c).map_err(|x| format!("create_btree_index({c}): {x:?}"))?;
+            }
+        }
+        Ok(())
+    }
+}
+
+/// Executes the history on a new table.  Returns the world whose model is the REQUIRED table content after the history
+/// and the verdict of the update/delete clause over the whole history (every step reported the number of rows for which
+/// its condition was true, the table read back afterwards is exactly the model).  Err = the table could not be set up.
+fn build_hist(pool: &mut Pool, hist: &[Step], hc: HCfg) -> Result<(World, Result<String, String>), String> {
+    let (eng, table) = pool.next();
+    let schema = Schema::new(vec![
+        Column::new("i", ColumnType::Int).nullable(),
+        Column::new("f", ColumnType::Float).nullable(),
+        Column::new("s", ColumnType::String).nullable(),
+    ]);
+    eng.create_table(&table, schema).map_err(|x| format!("create_table: {x:?}"))?;
+    let mut w = World { eng, table, model: vec![] };
+    let (e, t) = (Arc::clone(&w.eng), w.table.clone());
+    let mut inserted: Vec<u64> = vec![];
+    let mut problem: Option<String> = None;
+    let note = |p: &mut Option<String>, s: String| {
+        if p.is_none() {
+            *p = Some(s);
+        }
+    };
+    let setmap = |a: &[(usize, Value)]| -> HashMap<String, Value> { a.iter().map(|(k, v)| (COLS[*k].to_string(), v.clone())).collect() };
+    for (pos, step) in hist.iter().enumerate() {
+        if pos == hc.at {
+            hc.create(&e, &t)?;
+        }
+        let resolve = |tg: &Tgt| -> Result<Condition, String> {
+            match tg {
+                Tgt::Row(k) => inserted.get(*k).map(|id| mk(0, "_id", &Value::Int(*id as i64))).ok_or_else(|| format!("step {pos}: row {k} not inserted yet")),
+                Tgt::Cond(c) => Ok(c.clone()),
+            }
+        };
+        match step {
+            Step::Ins(r) => {
+                let m: HashMap<String, Value> = COLS.iter().enumerate().map(|(k, c)| ((*c).to_string(), r[k].clone())).collect();
+                let id = e.insert(&t, m).map_err(|x| format!("insert({r:?}): {x:?}"))?;
+                if w.model.iter().any(|(i, _)| *i == id) {
+                    return Err(format!("insert returned the id {id} of a live row"));
+                }
+                inserted.push(id);
+                w.model.push((id, r.clone()));
+            },
+            Step::Upd(tg, a) | Step::TxUpd(tg, a, _) => {
+                let c = resolve(tg)?;
+                let hit: Vec<u64> = spec(&w.model, &c).rows.iter().map(|r| r.id).collect();
+                let applied = match step {
+                    Step::TxUpd(_, _, commit) => {
+                        let tx = e.begin_transaction();
+                        let n = e.tx_update(tx, &t, c.clone(), setmap(a));
+                        let end = if *commit { e.commit(tx) } else { e.rollback(tx) };
+                        if let Err(x) = end {
+                            note(&mut problem, format!("step {pos}: {} Err {x:?}", if *commit { "commit" } else { "rollback" }));
+                        }
+                        (n, *commit)
+                    },
+                    _ => (e.update(&t, c.clone(), setmap(a)), true),
+                };
+                match applied.0 {
+                    Ok(n) if n == hit.len() => {},
+                    Ok(n) => note(&mut problem, format!("step {pos}: update reported {n} rows, the condition is true for row ids {hit:?}")),
+                    Err(x) => note(&mut problem, format!("step {pos}: update Err {x:?}")),
+                }
+                if applied.1 {
+                    for r in &mut w.model {
+                        if hit.contains(&r.0) {
+                            for (k, v) in a {
+                                r.1[*k] = v.clone();
+                            }
+                        }
+                    }
+                }
+            },
+            Step::Del(tg) => {
+                let c = resolve(tg)?;
+                let hit: Vec<u64> = spec(&w.model, &c).rows.iter().map(|r| r.id).collect();
+                match e.delete_rows(&t, c.clone()) {
+                    Ok(n) if n == hit.len() => {},
+                    Ok(n) => note(&mut problem, format!("step {pos}: delete_rows reported {n} rows, the condition is true for row ids {hit:?}")),
+                    Err(x) => note(&mut problem, format!("step {pos}: delete_rows Err {x:?}")),
+                }
+                w.model.retain(|r| !hit.contains(&r.0));
+            },
+        }
+    }
+    if hc.at >= hist.len() {
+        hc.create(&e, &t)?;
+    }
+    w.model.sort_by_key(|r| r.0);
+    let verdict = (|| {
+        if let Some(p) = problem {
+            return Err(p);
+        }
+        let all = w.eng.select(&w.table, Condition::True).map_err(|x| format!("read-back Err {x:?}"))?;
+        let want: Vec<Row> = w.model.iter().map(to_row).collect();
+        let (g, x) = (keys(&all), keys(&want));
+        if g != x {
+            return Err(format!("table after the history {g:?}, required {x:?}"));
+        }
+        let cnt = w.eng.count(&w.table, Condition::True).map_err(|x| format!("count Err {x:?}"))?;
+        if cnt != want.len() as u64 {
+            return Err(format!("count(True) = {cnt}, table has {} rows", want.len()));
+        }
+        Ok(format!("table after the history as required ({} rows)", want.len()))
+    })();
+    Ok((w, verdict))
+}
+
+/// two indexed columns and, for each, two values the tables hold (index 0 = "u", 1 = "v") and one they do not hold
+struct Palette {
+    kx: usize,
+    ky: usize,
+    xs: [Value; 3],
+    ys: [Value; 3],
+}
+
+fn palettes() -> Vec<Palette> {
+    let st = |x: &str| Value::String(x.into());
+    vec![
+        Palette { kx: 0, ky: 2, xs: [Value::Int(0), Value::Int(1), Value::Int(-1)], ys: [st("a"), st("b"), st("")] },
+        Palette { kx: 0, ky: 1, xs: [Value::Int(0), Value::Null, Value::Int(1)], ys: [Value::Float(-0.0), Value::Float(1.5), Value::Float(0.0)] },
+        Palette { kx: 1, ky: 2, xs: [Value::Float(1.5), Value::Float(f64::NAN), Value::Float(f64::NEG_INFINITY)], ys: [st("é"), Value::Null, st("a")] },
+    ]
+}
+
+/// (name, history, number of leading inserts).  R(a, b) = row with x = xs[a], y = ys[b]; the third column by rotation.
+fn histories(p: &Palette) -> Vec<(&'static str, Vec<Step>, usize)> {
+    let kz = 3 - p.kx - p.ky;
+    let az = alpha(kz);
+    let mut nth = 0usize;
+    let mut r = |a: usize, b: usize| -> Step {
+        let mut v: Vals = [Value::Null, Value::Null, Value::Null];
+        v[p.kx] = p.xs[a].clone();
+        v[p.ky] = p.ys[b].clone();
+        v[kz] = az[(2 * nth + 1) % az.len()].clone();
+        nth += 1;
+        Step::Ins(v)
+    };
+    let x = |a: usize| (p.kx, p.xs[a].clone());
+    let y = |b: usize| (p.ky, p.ys[b].clone());
+    let row = Tgt::Row;
+    let by = |k: usize, v: &Value| Tgt::Cond(mk(0, COLS[k], v));
+    vec![
+        // an older row is updated INTO the value two newer rows hold
+        ("into", vec![r(1, 0), r(0, 0), r(0, 1), Step::Upd(row(0), vec![x(0)])], 3),
+        // ... and out of it again
+        ("into_out", vec![r(1, 0), r(0, 0), r(0, 1), Step::Upd(row(0), vec![x(0)]), Step::Upd(row(0), vec![x(1)])], 3),
+        // both indexed columns assigned at once, into values newer rows hold
+        ("into_both", vec![r(1, 0), r(0, 0), r(0, 1), r(1, 1), Step::Upd(row(0), vec![x(0), y(1)])], 4),
+        // a row deleted, a new row inserted with the same values
+        ("delete_reinsert", vec![r(0, 0), r(0, 1), r(1, 0), Step::Del(row(0)), r(0, 0)], 3),
+        // multi-row updates selected by value
+        ("by_value", vec![r(1, 0), r(0, 1), r(1, 1), r(0, 0), Step::Upd(by(p.kx, &p.xs[1]), vec![x(0)]), Step::Upd(by(p.ky, &p.ys[1]), vec![x(1)])], 4),
+        // updates inside explicit transactions, rolled back and committed
+        ("tx", vec![r(1, 0), r(0, 0), r(0, 1), Step::TxUpd(row(0), vec![x(0)], false), Step::TxUpd(row(0), vec![y(1)], true),
+                    Step::TxUpd(row(0), vec![x(0)], true), Step::TxUpd(row(2), vec![x(1), y(0)], false)], 3),
+        // five live rows after updates, a delete and a later insert
+        ("five", vec![r(0, 0), r(1, 1), r(0, 1), r(1, 0), r(0, 0), Step::Upd(row(1), vec![x(0)]), Step::Del(row(2)), Step::Upd(row(3), vec![x(0), y(1)]), r(1, 1)], 5),
+        // a newer row deleted, then the older row updated into its value, then the value inserted again
+        ("delete_then_into", vec![r(1, 0), r(0, 0), r(0, 1), Step::Del(row(1)), Step::Upd(row(0), vec![x(0)]), r(0, 0)], 3),
+        // rows exchange their values
+        ("swap", vec![r(0, 0), r(1, 1), r(0, 1), Step::Upd(row(0), vec![x(1)]), Step::Upd(row(1), vec![x(0)]), Step::Upd(row(0), vec![y(1)]), Step::Upd(row(2), vec![y(0)])], 3),
+        // delete by value, re-insert the value twice, update an older row into it
+        ("delete_by_value", vec![r(0, 0), r(1, 0), r(0, 1), r(1, 1), Step::Del(by(p.kx, &p.xs[0])), r(0, 1), r(0, 0), Step::Upd(row(1), vec![x(0)])], 4),
+    ]
+}
+
+/// index configurations of stage F for the column pair (kx, ky): (kind of x, kind of y, when); `all` = the seven
+/// configurations (first palette), otherwise three of them
+fn hcfgs(kx: usize, ky: usize, init: usize, len: usize, all: bool) -> Vec<HCfg> {
+    let mk = |a: u8, b: u8, at: usize| {
+        let mut kinds = [0u8; 3];
+        kinds[kx] = a;
+        kinds[ky] = b;
+        HCfg { kinds, at }
+    };
+    if all {
+        vec![mk(1, 1, 0), mk(1, 1, len), mk(2, 2, 0), mk(2, 2, init), mk(1, 2, init), mk(2, 1, len), mk(3, 3, 0)]
+    } else {
+        vec![mk(1, 1, 0), mk(2, 2, init), mk(3, 3, len)]
+    }
+}
+
+fn hist_case(name: &str, hist: &[Step], hc: HCfg, c: &Condition, op: &J) -> J {
+    let mut j = op.clone();
+    j["hist"] = json!(name);
+    j["history"] = hist_enc(hist);
+    j["cfg"] = hc.enc();
+    j["cond"] = cenc(c);
+    j
+}
+
+fn stage_f(rep: &mut Rp, pool: &mut Pool) {
+    for (pi, p) in palettes().into_iter().enumerate() {
+        let mut at = atoms(COLS[p.kx], &p.xs);
+        at.extend(atoms(COLS[p.ky], &p.ys));
+        let conds = pair_conds(&at);
+        let ops = [
+            Op::Select,
+            Op::Columnar,
+            Op::Count,
+            Op::Sum(p.kx),
+            Op::Min(p.ky),
+            Op::Max(p.kx),
+            Op::Limit(1, 0),
+            Op::Limit(2, 1),
+            Op::Iter(1, None),
+            Op::Stream(2),
+        ];
+        for (name, hist, init) in histories(&p) {
+            for hc in hcfgs(p.kx, p.ky, init, hist.len(), pi == 0) {
+                let frame = || hist_case(name, &hist, hc, &Condition::True, &json!({"op": "history_frame"}));
+                let (w, verdict) = match build_hist(pool, &hist, hc) {
+                    Ok(x) => x,
+                    Err(e) => {
+                        rep.eval(false);
+                        rep.check("C04.setup", false, &frame, &|| format!("setup failed: {e}"));
+                        continue;
+                    },
+                };
+                rep.check("C04.setup", true, &|| J::Null, &String::new);
+                rep.eval(true);
+                rep.check("C04.update_delete", verdict.is_ok(), &frame, &|| {
+                    with_fresh("C04.update_delete", &frame(), verdict.as_ref().err().map_or("", String::as_str))
+                });
+                let cfg = hc.cfg();
+                for c in &conds {
+                    let want = spec(&w.model, c);
+                    let n = want.rows.len();
+                    for &op in &ops {
+                        let r = read_op(&w, c, op, &want);
+                        rep.eval(n > 0 && n < w.model.len());
+                        let ob = op.ob(cfg);
+                        let case = || hist_case(name, &hist, hc, c, &op.enc());
+                        rep.check(ob, r.is_ok(), &case, &|| with_fresh(ob, &case(), r.as_ref().err().map_or("", String::as_str)));
+                    }
+                }
+            }
+        }
     }
 }
 
@@ -1347,7 +1744,7 @@ pub fn run(tier: Tier, seed: u64) -> Report {
         ),
         true,
         &[
-            "relational_engine::RelationalEngine::{create_table,insert,select,select_with_limit,select_iter,select_streaming_builder,select_columnar,count,sum,avg,min,max,update,delete_rows,create_index,create_btree_index,drop_index,drop_btree_index}",
+            "relational_engine::RelationalEngine::{create_table,insert,select,select_with_limit,select_iter,select_streaming_builder,select_columnar,count,sum,avg,min,max,update,delete_rows,create_index,create_btree_index,drop_index,drop_btree_index,begin_transaction,tx_update,commit,rollback}",
             "relational_engine::Condition::evaluate (spec)",
             "query_router::QueryRouter::{execute,execute_parsed}",
         ],
@@ -1362,6 +1759,14 @@ pub fn run(tier: Tier, seed: u64) -> Report {
     stage_c(&mut rep, &mut pool, n - 1);
     stage_d(&mut rep, &mut pool);
     stage_e(&mut rep, &mut pool, if thorough { &[4, 5, 8, 9, 13] } else { &[4, 5, 9] });
+    stage_f(&mut rep, &mut pool);
+    rep.rep.domain.push_str(
+        "; F: compound conditions after a history: 10 histories (insert / update by row and by value / delete / re-insert / tx_update committed and rolled back; \
+         an older row updated into a value newer rows hold and out again, both columns at once, delete + re-insert of the same values, rows swapping values; 3..=5 live rows) \
+         x 3 palettes (i,s), (i with Null, f with -0.0/0.0), (f with NaN, s with Null) x 7 (first palette) / 3 index configurations on the two columns (hash+hash, btree+btree, hash+btree, btree+hash, both+both; \
+         created before the history, after the initial inserts, after the history) x every And/Or of two atoms (6 ops x 2 held + 1 absent value x 2 columns = 2592 conditions) \
+         x select/select_columnar/count/sum/min/max/2 limit-offset pairs/select_iter/streaming, + whole-table read-back after the history",
+    );
     rep.rep.sample(read_case(
         &[[Value::Int(0), Value::Float(-0.0), Value::Null], [Value::Null, Value::Float(f64::NAN), Value::String("é".into())]],
         Cfg::new(Idx::Both, true, false),
@@ -1388,6 +1793,18 @@ pub fn run(tier: Tier, seed: u64) -> Report {
 
 /// Rebuilds the table on a FRESH engine from the case and re-evaluates the same predicate.
 pub fn replay(_ob: &str, case: &J) -> Result<String, String> {
+    if !case["history"].is_null() {
+        // stage F: the table is produced by a history of steps
+        let hist = hist_dec(&case["history"])?;
+        let hc = HCfg::dec(&case["cfg"])?;
+        let mut pool = Pool::new();
+        let (w, verdict) = build_hist(&mut pool, &hist, hc).map_err(|e| format!("setup failed: {e}"))?;
+        if case["op"].as_str() == Some("history_frame") {
+            return verdict;
+        }
+        let c = cdec(&case["cond"])?;
+        return read_op(&w, &c, Op::dec(case)?, &spec(&w.model, &c));
+    }
     let rows = rows_dec(&case["rows"])?;
     let cfg = Cfg::dec(&case["cfg"])?;
     let opname = case["op"].as_str().ok_or("op")?;
